@@ -25,7 +25,7 @@ ASSUMPTIONS = ['secondary/supplementary alignments are outside the claim (not ge
                'mate number is only compared for pairs whose mates are both mapped to the same contig (the third-party mate iterator de-pairs the others)',
                'worker schedules are sampled: observed completion orders are counted, not enumerated']
 MIN_NONTRIVIAL = {'quick': 40, 'thorough': 1200}
-REQUIRED_MONITORS = ['history:same_path_reused', 'eject:interval_shrunk', 'lib:dense', 'lib:placed_unmapped_pairs', 'layout:more_than_100_small_contigs', 'paths:rel', 'paths:dotrel', 'lib:secondary_or_supplementary', 'run:single_process', 'run:multiprocess', 'records:compared', 'jobs:observed', 'run:no_rejects', 'layout:large_after_small',
+REQUIRED_MONITORS = ['history:tagged_file_tagged_again_with_other_read_group_format', 'history:same_path_reused', 'eject:interval_shrunk', 'lib:dense', 'lib:placed_unmapped_pairs', 'layout:more_than_100_small_contigs', 'paths:rel', 'paths:dotrel', 'lib:secondary_or_supplementary', 'run:single_process', 'run:multiprocess', 'records:compared', 'jobs:observed', 'run:no_rejects', 'layout:large_after_small',
                      'layout:lone_small_contig', 'lib:unmapped_pairs', 'lib:half_mapped', 'lib:orphans', 'lib:mates_on_two_contigs', 'lib:input_records_with_qcfail_bit', 'lib:hard_clipped_fragments', 'input:header_with_read_groups_programs_and_comments', 'lib:input_without_any_record', 'history:stale_index_next_to_the_input']
 SHARD_TIMEOUT = {'quick': 900, 'thorough': 7200}
 
@@ -420,6 +420,44 @@ def run_case(case):
             if a.get_tag('RG') not in declared:
                 acc.violate('read-group-not-declared', f'RG {a.get_tag("RG")} of {a.query_name} is not in the header ({sorted(declared)[:5]}) ({cfg})', wit)
                 break
+        # ---- history: the tagged file is tagged once more, now with one read group per library (-read_group_format 1). Its records
+        # already carry sample, UMI and the read group of the first run; the second output holds the same records, and every record carries
+        # a read group that the second header declares
+        if case['i'] % 8 == 3 and out_recs:
+            out2 = os.path.join(dd, 'out2', 'tagged.bam')
+            os.makedirs(os.path.dirname(out2))
+            cmd2 = [out, '-o', out2, '-method', method, '-temp_folder', dd, '-read_group_format', '1'] + (['--multiprocess', '-tagthreads', str(threads)] if multi else [])
+            exc2, txt2 = T.run_cli(cmd2, eject_every=eject_every)
+            acc.count('history:tagged_file_tagged_again_with_other_read_group_format')
+            cfg2 = dict(cfg, second_pass='-read_group_format 1 on the output of the first pass')
+            if exc2 is not None:
+                acc.violate('tagger-raised:' + type(exc2).__name__, f'second pass over the tagged file raised {exc2!r} ({cfg2}); tail: {txt2[-400:]}', wit)
+                return acc
+            recs2, hdr2, info2 = T.load_records(out2)
+            if info2['error']:
+                acc.violate('output-unreadable', f'second pass: output BAM unreadable: {info2["error"]} ({cfg2})', wit)
+                return acc
+            # mate number: claimed when both mates are present - here: for the pairs which the first output still holds as flagged pairs
+            # (mates on two contigs and half-mapped pairs leave the first pass as two unpaired records)
+            unpaired1 = set(F.id_from_name(a.query_name) for a in out_recs if not a.is_paired)
+            mated = lambda a: truths.get(F.id_from_name(a.query_name), {}).get('kind') in MATED and F.id_from_name(a.query_name) not in unpaired1
+            k1 = Counter(rec_key(a, mated(a)) for a in out_recs)
+            k2 = Counter(rec_key(a, mated(a)) for a in recs2)
+            if k1 != k2:
+                acc.violate('records-lost-and-duplicated' if (k1 - k2 and k2 - k1) else 'records-lost:some' if k1 - k2 else 'records-duplicated:mapped',
+                            f'second pass over the tagged file: {sum((k1 - k2).values())} records missing, {sum((k2 - k1).values())} extra ({cfg2})', dict(wit, missing=[list(map(str, k[:1] + k[3:])) for k in list(k1 - k2)[:8]], extra=[list(map(str, k[:1] + k[3:])) for k in list(k2 - k1)[:8]]))
+            if not info2['sorted'] or info2['so'] != 'coordinate':
+                acc.violate('output-not-coordinate-sorted', f'second pass: sorted={info2["sorted"]} SO={info2["so"]} ({cfg2})', wit)
+            if not info2['index']:
+                acc.violate('output-index-missing', f'second pass: no usable index next to the output ({cfg2})', wit)
+            declared2 = set(x.get('ID') for x in hdr2.get('RG', []))
+            for a in recs2:
+                if not a.has_tag('RG'):
+                    acc.violate('record-without-read-group', f'second pass: record {a.query_name} has no RG tag ({cfg2})', wit)
+                    break
+                if a.get_tag('RG') not in declared2:
+                    acc.violate('read-group-not-declared', f'second pass: RG {a.get_tag("RG")} of {a.query_name} is not in the header ({sorted(declared2)[:5]}) ({cfg2})', wit)
+                    break
         # ---- job table (diagnostic, multiprocess)
         if multi and evs:
             seen = Counter()
